@@ -18,7 +18,9 @@ class C01(SysBase):
     def corpus(self):
         return [self.mk(9, 16384, [40000], [("111", "corrupt 1")], "corpus", False),
                 self.mk(10, 16384, [40000], [("111", "corrupt 2"), ("111", "honest")], "corpus", True),
-                self.mk(11, 20000, [30000, 9], [("11", "wrongoffset 1"), ("11", "dup")], "corpus", False)]
+                self.mk(11, 20000, [30000, 9], [("11", "wrongoffset 1"), ("11", "dup")], "corpus", False),
+                self.mk(12, 32768, [65536], [("11", "swap")], "corpus", False),
+                self.mk(13, 49152, [98304, 5], [("111", "swap"), ("111", "honest")], "corpus", False)]
 
     def gen(self, rng, tier):
         k = {"quick": 40, "thorough": 800, "search": 150}.get(tier, 40)
@@ -29,7 +31,7 @@ class C01(SysBase):
             peers = []
             for p in range(npeers):
                 bits = "".join("1" if rng.random() < 0.7 else "0" for _ in range(n))
-                beh = rng.choice(["corrupt %d" % rng.randrange(1, 4), "wrongoffset %d" % rng.randrange(1, 3), "dup",
+                beh = rng.choice(["corrupt %d" % rng.randrange(1, 4), "wrongoffset %d" % rng.randrange(1, 3), "dup", "swap", "swap",
                                   "garbage %d" % rng.randrange(1, 6), "dropafter %d" % rng.randrange(1, 9), "honest", "slow"])
                 peers.append((bits, beh))
             cases.append(self.mk(rng.randrange(1, 10 ** 6), pl, flens, peers, "adversarial", False))
